@@ -19,7 +19,7 @@ RUN_LIMIT_CPU_S = 600     # one run enumerates hundreds of fault positions in th
 BUDGET = {'quick': 25, 'thorough': 300}
 BLOCK = 8
 STREAM_ORDER = ['ops', 'guards', 'faults', 'chart', 'cfg']
-RULE = (common.GEN + 'the monitored chart sends events (with delays; in a third of the runs also events without any parameter, so that two sent in one step compare equal) and notifies, in a third of the runs it carries contracts that are checked; listeners read every documented attribute of every meta-event; in a third of the runs the monitored interpreter is a subclass of Interpreter with its own constructor and a property statechart is bound with the default interpreter_klass; in half of the runs the property statecharts arm a far-away timeout on themselves (a pending delayed internal event of their own); listeners: a plain recording callable (attach), two recorders with value equality that compare equal when they are attached, a recording '
+RULE = (common.GEN + 'the monitored chart sends events (with delays; in a third of the runs also events without any parameter, so that two sent in one step compare equal) and notifies, in a third of the runs it carries contracts that are checked; listeners read every documented attribute of every meta-event; in a third of the runs a one-shot listener attached in front of the others detaches itself while it is told its k-th meta-event; in a third of the runs the monitored interpreter is a subclass of Interpreter with its own constructor and a property statechart is bound with the default interpreter_klass; in half of the runs the property statecharts arm a far-away timeout on themselves (a pending delayed internal event of their own); listeners: a plain recording callable (attach), two recorders with value equality that compare equal when they are attached, a recording '
         'property statechart (bind_property_statechart, built through interpreter_klass so that it shares a recorder) and a tripwire property '
         'statechart that becomes final at its k-th meta-event. Run A (no tripwire): the stream both recorders saw must equal the stream derived '
         'from the returned micro steps, the property chart own clock must equal the monitored step time, and the macro steps must equal those '
@@ -129,6 +129,16 @@ class Q:
     def rec(self, event, time):
         read_attributes(event)
         self.seen.append((norm(event.name, event.data), time))
+
+
+class OneShot:
+    def __init__(self, it, k):
+        self.it, self.k, self.n = it, k, 0
+
+    def __call__(self, me):
+        self.n += 1
+        if self.n == self.k:
+            self.it.detach(self)
 
 
 class Plain:
@@ -250,6 +260,11 @@ def run(ch, tier):
         res.stats['runs_monitoring_an_interpreter_subclass'] += 1
     plain = Plain(a)
     q = Q()
+    if cs.flag(1, 3):
+        # a one-shot listener attached in front of all others detaches itself while it is being told its k-th meta-event:
+        # the listeners behind it still get that meta-event, and every later one
+        a.it.attach(OneShot(a.it, cs.int(1, 12)))
+        res.stats['runs_with_a_listener_that_detaches_itself_during_dispatch'] += 1
     a.it.attach(plain)
     twins_ = [EqRec(), EqRec()]
     for t_ in twins_:
